@@ -331,8 +331,14 @@ package proxy
 //@   ensures result == p.forward
 
 // client -> backend, play phase. A registration is announced (one Fire site) iff forwarding it to the backend succeeded.
+// (C24) A message is forwarded directly only when BOTH the player's and the backend connection's handshake phases are
+// complete; while either is incomplete it joins the pre-join queue behind the earlier ones (order is kept).
 //@ func (*clientPlaySessionHandler).handlePluginMessage
-//@   props C25
+//@   props C25 C24
+//@   at-call ConsideredComplete#1 as pcDone
+//@   at-call ConsideredComplete#2 as scDone
+//@   at-call FromID as direct: assert [direct-forward-only-when-both-phases-are-complete] called(pcDone) && res(pcDone) && called(scDone) && res(scDone)
+//@   at-call enqueueLoginPluginMessage as early: assert [queued-while-either-phase-is-incomplete] called(pcDone) && (!res(pcDone) || (called(scDone) && !res(scDone))) && arg0 == c && arg1 == packet
 //@   at-call IsRegister as isreg: assert arg0 == packet
 //@   at-call WritePacket#1 as fwdreg: assert [registration-forwarded-unchanged] called(isreg) && res(isreg) && ref(arg1) == packet
 //@   at-call Fire<*proxy.PlayerChannelRegisterEvent> as regev: assert [register-event-only-after-a-successful-forward] called(fwdreg) && res(fwdreg) == nil
